@@ -161,7 +161,7 @@ func (s *statusReader) counts() (int, int) {
 }
 
 type mtcpOp struct {
-	kind      int // 0 = Send, 1 = keep-alive byte injected by the harness at this frame boundary, 2 = wait for the client's own tick
+	kind      int // 0 = Send, 1 = keep-alive byte injected by the harness at this frame boundary, 2 = wait for the client's own tick, 3 = Send of an unserialisable variant of the bundle
 	bndl      int // index into the bundle table
 	failAt    int // -1 = no scripted failure
 	failM     int
@@ -223,6 +223,12 @@ func mtcpConn(o *Out, label string, bundles []mtcpBundle, ops []mtcpOp) {
 }
 
 func mtcpConnOnce(emit emitFn, label string, bundles []mtcpBundle, ops []mtcpOp, ticks int, tickAfterBreak bool, final bool, t0 time.Time) bool {
+	return mtcpConnOnceC(nil, emit, label, bundles, ops, ticks, tickAfterBreak, final, t0)
+}
+
+// client == nil: a new client object; otherwise the given object is started again on a fresh
+// connection (what cla.Manager.Restart does after PeerDisappeared: Close, then Start)
+func mtcpConnOnceC(client *mtcp.MTCPClient, emit emitFn, label string, bundles []mtcpBundle, ops []mtcpOp, ticks int, tickAfterBreak bool, final bool, t0 time.Time) bool {
 	cEnd, sEnd := net.Pipe()
 	rc := &recConn{Conn: cEnd, curOp: -1, failAt: -1, outside: make(chan struct{}, 64)}
 	serv := mtcp.NewMTCPServer("verif", bpv7.MustNewEndpointID("dtn://server/"), false)
@@ -230,7 +236,9 @@ func mtcpConnOnce(emit emitFn, label string, bundles []mtcpBundle, ops []mtcpOp,
 	servDone := make(chan struct{})
 	go func() { serv.VerifHandleSender(sEnd); close(servDone) }()
 
-	client := mtcp.NewMTCPClient("verif", bpv7.MustNewEndpointID("dtn://server/"), false)
+	if client == nil {
+		client = mtcp.NewMTCPClient("verif", bpv7.MustNewEndpointID("dtn://server/"), false)
+	}
 	client.VerifStartWithConn(rc)
 	cr := newStatusReader(client.Channel())
 
@@ -256,6 +264,23 @@ func mtcpConnOnce(emit emitFn, label string, bundles []mtcpBundle, ops []mtcpOp,
 			}
 			d1, _ := cr.counts()
 			obs = append(obs, L(Sym("send"), I(op.bndl), I(op.failAt+1), I(op.failM), B(err != nil), I(d1-d0), B(op.transient)))
+		case 3:
+			// a bundle that cannot be serialised (unknown CRC type in its last block)
+			bad := bundles[op.bndl].b
+			bad.CanonicalBlocks = append([]bpv7.CanonicalBlock(nil), bad.CanonicalBlocks...)
+			bad.CanonicalBlocks[len(bad.CanonicalBlocks)-1].CRCType = bpv7.CRCType(7)
+			d0, _ := cr.counts()
+			rc.begin(i, -1, 0, false)
+			err := client.Send(bad)
+			rc.end()
+			if time.Since(anchor) > 2*time.Second {
+				stalled = true
+			}
+			if !cr.sync(client.Channel()) {
+				timeouts++
+			}
+			d1, _ := cr.counts()
+			obs = append(obs, L(Sym("sendbad"), B(err != nil), I(d1-d0)))
 		case 1:
 			rc.begin(i, -1, 0, false)
 			_, err := rc.Write([]byte{0x40})
@@ -533,6 +558,8 @@ func genC12mtcp(o *Out, r *Rng, thorough bool) {
 		}
 		mtcpConn(o, "random", tab, ops)
 	}
+
+	mtcpReuseAll(o, r, tab, thorough)
 
 	mtcpTCP(o, tab, []int{0, 4, 1, 9, 0, 18, 2})
 
